@@ -242,7 +242,7 @@ func (p *Printer) define(t *Term) {
 			body = trunc(cvtq(fx), 64)
 		default:
 			sub := fmt.Sprintf("(fp.sub RNE %s %s)", fx, k(9223372036854775808.0))
-			body = fmt.Sprintf("(ite (fp.lt %s %s) %s (bvxor %s #x8000000000000000))", fx, k(9223372036854775808.0), cvtq(fx), cvtq(sub))
+			body = fmt.Sprintf("(ite (fp.lt %s %s) %s (bvor %s #x8000000000000000))", fx, k(9223372036854775808.0), cvtq(fx), cvtq(sub))
 		}
 	case OpUF:
 		uname := SMTName(t.Name)
